@@ -621,15 +621,13 @@ pub fn suite_w(out: &mut Out, seed: u64, thorough: bool, filter: &[String], wide
 		if !want(name) {
 			continue;
 		}
+		// every method meets every class (relative change needs non-zero inputs: no `alphabet` / `zeros` for roc)
+		let mut deck = if *name == "roc" { gen::Deck::new(&gen::CLASSES[2..]) } else { gen::Deck::values() };
+		let mut dr = rng.fork(id + 7919);
 		for &len in &lens {
-			for k in 0..classes_per {
+			for _k in 0..classes_per {
 				let mut r = rng.fork(id);
-				let class = if *name == "roc" {
-					// relative change needs non-zero inputs
-					gen::CLASSES[2 + ((id as usize + k) % (gen::CLASSES.len() - 2))]
-				} else {
-					gen::CLASSES[(id as usize + k) % gen::CLASSES.len()]
-				};
+				let class = deck.draw(&mut dr);
 				let n = steps(&mut r, len);
 				let mut xs = if *name == "roc" { gen::positive(&mut r, n, class) } else { gen::stream(&mut r, n, class) };
 				// usual API: constructed from the first element, sometimes preceded by extra copies,
@@ -704,13 +702,15 @@ pub fn suite_w(out: &mut Out, seed: u64, thorough: bool, filter: &[String], wide
 		} else {
 			vec![(13, 25), (1, 1), (2, 7), (25, 13), (254, 254), (1, 254), (5, 100)]
 		};
+		let mut deck = gen::Deck::values();
+		let mut dr = rng.fork(id + 7919);
 		for (s, l) in pairs {
 			if s >= max || l >= max {
 				continue;
 			}
-			for k in 0..2 {
+			for _k in 0..2 {
 				let mut r = rng.fork(id);
-				let class = gen::CLASSES[(id as usize + k) % gen::CLASSES.len()];
+				let class = deck.draw(&mut dr);
 				let xs = gen::stream(&mut r, 300, class);
 				let case = Case { name: "tsi".into(), params: vec![s.to_string(), l.to_string()], init: vec![xs[0]], inputs: f1(&xs), state_every: 1 };
 				out.count(&format!("class:{}", class));
@@ -878,9 +878,11 @@ pub fn suite_w(out: &mut Out, seed: u64, thorough: bool, filter: &[String], wide
 			"collapse" => vec![1, 2, 3, 5, 7, 24, 60],
 			_ => vec![0; 6],
 		};
-		for (j, &p) in ps.iter().enumerate() {
+		let mut deck = gen::Deck::candles();
+		let mut dr = rng.fork(id + 7919);
+		for (_j, &p) in ps.iter().enumerate() {
 			let mut r = rng.fork(id);
-			let class = gen::CANDLE_CLASSES[(id as usize + j) % gen::CANDLE_CLASSES.len()];
+			let class = deck.draw(&mut dr);
 			let n = steps(&mut r, p);
 			let cs = gen::candles(&mut r, n, class);
 			let rows = candle_rows(&cs);
